@@ -67,7 +67,7 @@ func (iph *IPHashConsistentStrategy) NextBackend(r *http.Request) *Backend {
 	// Get healthy backends
 	healthyBackends := make([]*Backend, 0)
 	for _, b := range iph.backends {
-		if b.IsHealthy {
+		if b.markedHealthy() {
 			healthyBackends = append(healthyBackends, b)
 		}
 	}
